@@ -39,8 +39,8 @@ def run_all_schedules(case):
     B, T, unit = case["sch"]
     runs = []
     try:
-        ds = _impl["Dataset"].from_raw_list(am.raw_dataset(case["D"]))
-        ss = core.build_scheme(B, T, unit, case.get("schemeform", case["id"] % 4))
+        ds = _impl["Dataset"].from_raw_list(am.raw_dataset(case["D"]), name="study")     # every dataset of a process bears the same name (two files with one base name)
+        ss = core.build_scheme(B, T, unit, case.get("schemeform", case["id"] % 5))
         if case.get("lex") is not None:
             lib, tlc = core.lex_vectors(case["lex"])
             ss = _impl["SS"](lib)
